@@ -40,7 +40,16 @@ type simNet struct {
 	link  map[[2]int]bool // undirected, key (min,max)
 	names []enc.Name
 	stats map[string]int
+	// event budget of one case: about ten times what a correct run needs; when it is exhausted the network goes
+	// silent (so the case ends) and the case is reported as not coming to rest
+	events  int
+	overrun bool
 }
+
+const protoEventBudget = 120000
+
+// cases of this run that exhausted the budget; after a few the run stops (the failure is established)
+var protoOverruns int
 
 type simHandler struct {
 	prefix enc.Name
@@ -213,6 +222,16 @@ func (e *simEngine) Express(interest *ndn.EncodedInterest, cb ndn.ExpressCallbac
 		return errors.New("engine stopped")
 	}
 	n := e.net
+	n.mu.Lock()
+	n.events++
+	if n.events > protoEventBudget {
+		n.overrun = true
+	}
+	over := n.overrun
+	n.mu.Unlock()
+	if over {
+		return errors.New("simulated network: event budget exhausted")
+	}
 	name := interest.FinalName
 	switch {
 	case e.syncPfx.IsPrefix(name):
@@ -314,6 +333,14 @@ func (p *protoWorld) stopRouter(i int) {
 
 func (p *protoWorld) check(waited time.Duration) {
 	synctest.Wait()
+	p.net.mu.Lock()
+	over := p.net.overrun
+	p.net.mu.Unlock()
+	if over {
+		fmt.Fprintf(p.w, "overrun %d\n", protoEventBudget)
+		protoOverruns++
+		return
+	}
 	for i := 0; i < p.n; i++ {
 		if p.rt[i] == nil {
 			continue
@@ -501,7 +528,7 @@ func TestProto(t *testing.T) {
 	defer out.Flush()
 	r := rand.New(rand.NewSource(seed*7919 + 13))
 	total := map[string]int{}
-	for k := 0; k < n; k++ {
+	for k := 0; k < n && protoOverruns < 6; k++ {
 		nn := 2 + r.Intn(5)
 		edges := randomConnected(r, nn)
 		if k%2 == 1 && nn >= 4 {
